@@ -273,6 +273,15 @@ def getUserRolesL (env : Env) (l : Local) (user : User) (o : Obj) : List String 
 structure Sess where
   perm : Cache
   loc : Local
+  labels : List (Obj × List String)           -- `cache.obj_labels_cache` (lives and dies with the SessionCache)
+
+/-- `get_object_labels(obj)` with the session's `obj_labels_cache` -/
+def getObjectLabelsL (env : Env) (lc : List (Obj × List String)) (o : Obj) : List String × List (Obj × List String) :=
+  match lc.lookup o with
+  | some r => (r, lc)                           -- `if result is None:` … else the cached set
+  | none =>
+    let r := env.labelsOf o
+    (r, (o, r) :: lc)
 
 /-- `has_perm(user, perm, x)` with all three caches threaded through -/
 def hasPermS (env : Env) (s : Sess) (user : User) (perm : String) (x : Target) : Bool × Sess :=
@@ -284,15 +293,16 @@ def hasPermS (env : Env) (s : Sess) (user : User) (perm : String) (x : Target) :
       | some r => (r, s)
       | none =>
         let (ug, l1) := getUserGroupsL env s.loc user                       -- `user_groups = get_user_groups(user)`
-        let (result, l2) : Bool × Local := match x with
-          | .entity e => (entityLoop ug e ar, l1)
+        let (result, l2, lab2) : Bool × Local × List (Obj × List String) := match x with
+          | .entity e => (entityLoop ug e ar, l1, s.labels)
           | .attr a =>
             (attrLoop ug a.entity a.id a.reverse
-              (match a.reverse with | some (_, re) => accessRules env.rules re perm | none => []) ar, l1)
+              (match a.reverse with | some (_, re) => accessRules env.rules re perm | none => []) ar, l1, s.labels)
           | .obj o =>
             let (ur, l2) := getUserRolesL env l1 user o                     -- `user_roles = get_user_roles(user, obj)`
-            (objLoop ug ur (getObjectLabels env o) o.entity ar, l2)
-        (result, { perm := s.perm.set (user, perm, .perm perm) result, loc := l2 })
+            let (ol, lab2) := getObjectLabelsL env s.labels o               -- `obj_labels = get_object_labels(obj)`
+            (objLoop ug ur ol o.entity ar, l2, lab2)
+        (result, { perm := s.perm.set (user, perm, .perm perm) result, loc := l2, labels := lab2 })
 
 /-- how a db_session ends -/
 inductive ExitKind where
@@ -329,7 +339,7 @@ def runThreadWith (exit : ExitKind → Local → Local) :
     Local → List (Env × List (User × String × Target) × ExitKind) → List (List Bool)
   | _, [] => []
   | l, (env, calls, k) :: rest =>
-    let (rs, s) := runSessionCalls env { perm := [], loc := l } calls
+    let (rs, s) := runSessionCalls env { perm := [], loc := l, labels := [] } calls
     rs :: runThreadWith exit (exit k s.loc) rest
 
 def runThread := runThreadWith exitSession
